@@ -113,7 +113,7 @@ PlainRq == "plain"
 \* Content-Encoding and Content-Disposition logic), for a path and for a BytesIO
 NamesInputs ==
   {MkCall("sf", "path", ni, mt, att, di, TRUE, "auto", "none", "none", 0, FALSE, "default", FALSE, PlainRq, TRUE) :
-     ni \in FileNames, mt \in {<<>>, M_HTML, M_PDF, M_SQL}, att \in Bools, di \in {0} \cup AllNames}
+     ni \in FileNames, mt \in (IF Deep THEN {<<>>, M_HTML, M_PDF, M_SQL} ELSE {<<>>, M_HTML, M_SQL}), att \in Bools, di \in {0} \cup AllNames}
   \cup {MkCall("sf", "bytesio", 0, mt, att, di, TRUE, "auto", "none", "none", 0, FALSE, "default", FALSE, PlainRq, TRUE) :
      mt \in {<<>>, M_HTML, M_PDF}, att \in Bools, di \in {0} \cup AllNames}
 
@@ -125,7 +125,7 @@ MaChoices == {<<"none", 0>>, <<"int", 0>>, <<"int", 60>>, <<"call", 60>>, <<"cal
 CacheInputs ==
   {MkCall("sf", kind, IF kind \in {"path", "pathlike", "relpath"} THEN 1 ELSE 0, IF kind \in {"path", "pathlike", "relpath"} THEN <<>> ELSE M_PDF,
           FALSE, 0, cond, em, lmm, mc[1], mc[2], xsf, rclass, fw, rq, TRUE) :
-     kind \in (IF Deep THEN {"path", "pathlike", "relpath", "bytesio", "binfile", "pipe"} ELSE {"path", "pathlike", "bytesio", "binfile"}),
+     kind \in (IF Deep THEN {"path", "pathlike", "relpath", "bytesio", "binfile", "pipe"} ELSE {"path", "bytesio", "binfile"}),
      cond \in Bools, em \in {"auto", "off", "given"}, lmm \in (IF Deep THEN {"none", "int", "float", "aware"} ELSE {"none", "float"}),
      mc \in MaChoices, xsf \in Bools, rclass \in (IF Deep THEN {"default", "sub"} ELSE {"default"}),
      fw \in (IF Deep THEN Bools ELSE {FALSE}), rq \in (IF Deep THEN Requests ELSE RequestsSmall)}
@@ -135,7 +135,8 @@ ErrorInputs ==
   {MkCall("sf", kind, IF kind \in {"path", "pathlike", "relpath"} THEN ni ELSE 0, mt, att, di, TRUE, "auto", "none", mc[1], mc[2], xsf,
           rclass, fw, rq, TRUE) :
      kind \in {"path", "pathlike", "relpath", "bytesio", "binfile", "pipe", "textio", "textfile"}, ni \in {1, 15}, mt \in {<<>>, M_HTML},
-     att \in Bools, di \in {0, 1, 9, 15, 16, 19}, mc \in {<<"none", 0>>, <<"call", 60>>}, xsf \in Bools, rclass \in {"default", "sub"},
+     att \in Bools, di \in {0, 1, 9, 15, 16, 19}, mc \in (IF Deep THEN {<<"none", 0>>, <<"call", 60>>} ELSE {<<"call", 60>>}), xsf \in Bools,
+     rclass \in {"default", "sub"},
      fw \in (IF Deep THEN Bools ELSE {FALSE}), rq \in {"plain", "range_unsat"}}
   \cup {MkCall("sfd", "path", ni, <<>>, att, 0, TRUE, "auto", "none", "none", 0, FALSE, "default", FALSE, rq, ex) :
      ni \in {1, 9, 12}, att \in Bools, rq \in {"plain", "inm_match", "range_unsat"}, ex \in Bools}
@@ -149,8 +150,24 @@ MkSdm(ni, cache, timeout, rq, exists) ==
 SdmInputs == {MkSdm(ni, cache, timeout, rq, ex) : ni \in {1, 2, 4, 13, 17, 20}, cache \in Bools, timeout \in {0, 43200},
               rq \in {"plain", "head", "inm_match", "inm_other", "ims_eq", "ims_before", "head_inm_match"}, ex \in Bools}
 
+\* small universes for the hand-broken variants (each exposes its defect; TLC starts in a second)
+NamesSmall ==
+  {MkCall("sf", kind, IF kind = "path" THEN ni ELSE 0, mt, att, di, TRUE, "auto", "none", "none", 0, FALSE, "default", FALSE, PlainRq, TRUE) :
+     kind \in {"path", "bytesio"}, ni \in {1, 9, 12, 13}, mt \in {<<>>, M_PDF}, att \in Bools, di \in {0, 4, 5, 9, 12, 14}}
+CacheSmall ==
+  {MkCall("sf", kind, IF kind \in {"path", "pathlike"} THEN 1 ELSE 0, IF kind \in {"path", "pathlike"} THEN <<>> ELSE M_PDF,
+          FALSE, 0, TRUE, em, lmm, mc[1], mc[2], xsf, "default", FALSE, rq, TRUE) :
+     kind \in {"path", "pathlike", "bytesio"}, em \in {"auto", "off"}, lmm \in {"none", "float"}, mc \in {<<"none", 0>>, <<"call", 60>>},
+     xsf \in Bools, rq \in {"plain", "inm_match", "range_unsat"}}
+ErrorsSmall ==
+  {MkCall("sf", kind, IF kind = "path" THEN 1 ELSE 0, mt, att, di, TRUE, "auto", "none", "none", 0, FALSE, rclass, fw, PlainRq, TRUE) :
+     kind \in {"path", "bytesio", "textio"}, mt \in {<<>>, M_HTML}, att \in Bools, di \in {0, 1}, rclass \in {"default", "sub"}, fw \in Bools}
+  \cup {MkCall("sfd", "path", 1, <<>>, FALSE, 0, TRUE, "auto", "none", "none", 0, FALSE, "default", FALSE, PlainRq, ex) : ex \in Bools}
+
 Inputs == IF Family = "names" THEN NamesInputs ELSE IF Family = "cache" THEN CacheInputs
-          ELSE IF Family = "errors" THEN ErrorInputs ELSE SdmInputs
+          ELSE IF Family = "errors" THEN ErrorInputs ELSE IF Family = "names_small" THEN NamesSmall
+          ELSE IF Family = "cache_small" THEN CacheSmall ELSE IF Family = "errors_small" THEN ErrorsSmall
+          ELSE IF Family = "small" THEN NamesSmall \cup CacheSmall \cup ErrorsSmall ELSE SdmInputs
 
 \* ------------------------------------------------------------------ send_file, written like the code
 RECURSIVE Esc(_)
